@@ -327,7 +327,10 @@ static std::string handle(const std::vector<std::string>& f0)
             {
                 constructible = false;
             }
-            if (constructible)
+            std::size_t total = 0;
+            for (auto& t : ui)
+                total += t.data().size();
+            if (constructible && total <= 50000)
             {
                 no::parser p2("prog");
                 declare(p2, d);
@@ -619,5 +622,5 @@ static std::string run_decl(const std::string& ops)
 
 int main()
 {
-    return nv::main_loop(handle, 5);
+    return nv::main_loop(handle, 20);
 }
